@@ -539,9 +539,28 @@ def run(ctx):
             for op in (OPS if (nsucc == 1 and 'lit' in kinds) else ['Lt']):
                 for event_time in (False, True):
                     tasks.append(('start', nsucc, kinds, op, event_time, ctx.tier if nsucc == 1 else 'quick'))
+    # the `.not(...)` clause: check_global_negations marks a run invalidated iff the event has the forbidden type and satisfies the clause's
+    # predicate, and (partitioned) only runs of the event's own partition — the job lives in props/c04neg.py (shared with C04)
+    from props import c04neg
+    ntasks = c04neg.tasks(ctx.tier)
+    ctx.bounds['not-clause'] = 'check_global_negations with one clause (forbidden type symbolic, predicate absent or `x OP literal`), unpartitioned and partitioned (two partitions, one run each)'
     with ProcessPoolExecutor(max_workers=14, mp_context=mp.get_context('fork')) as pool:
         res = list(pool.map(_worker, tasks))
+        nres = list(pool.map(c04neg._worker, ntasks))
     binp = None; seen = set()
+    for r in nres:
+        tgt = 'SaseEngine::check_global_negations'; cls = ' '.join(r['spec'][1:])
+        if r.get('error'):
+            ctx.inconclusive.append('%s (%s): %s' % (tgt, cls, r['error'])); continue
+        for why in sorted(set(r['inconclusive'])): ctx.inconclusive.append('%s (%s): %s' % (tgt, cls, why))
+        ctx.queries += r['queries']; ctx.solver_s += r['solver_s']
+        ctx.add_obligations(tgt, r['verdicts'], cls=cls)
+        for v in r['verdicts']:
+            if v['status'] != 'violated': continue
+            key = 'check_global_negations:%s' % v['name'].split(':')[0]
+            if key in seen: continue
+            seen.add(key)
+            ctx.findings.append(Finding(key, '%s %s: %s (witness %s)' % (tgt, cls, v['name'], v.get('witness')), [replay.build('rt'), 'negpart'], v.get('witness') or {}))
     for r in res:
         tgt = 'try_start_run_shared' if r['spec'][0] == 'start' else 'advance_run_shared'; cls = ' '.join(r['spec'])
         if r.get('error'):
